@@ -56,9 +56,24 @@ TIE = 1e-9
 SIGMA_REL = 1e-9
 FACTOR = 2.0 ** (1.0 / 6.0)
 
-RESNAMES = ['ALA', 'GLY', 'LYS', 'CYS', 'TRP', 'ASP', 'SER', 'PHE']
-BB_TYPES = ['P2', 'SP2', 'SP1', 'Q5', 'P2', 'P2']
-SC_TYPES = ['TC3', 'SC2', 'C1', 'TN6d', 'SQ4p', 'TC5', 'P1']
+# residue templates: resname, backbone type, backbone charge, side bead types
+TEMPLATES = [
+    ('GLY', 'SP1', 0.0, []),
+    ('ALA', 'SP2', 0.0, ['TC3']),
+    ('ALA', 'SP2', 0.0, []),
+    ('LYS', 'P2', 0.0, ['SC3', 'SQ4p']),
+    ('LYS', 'Q5', 1.0, ['SC3', 'SQ4p']),
+    ('CYS', 'P2', 0.0, ['TC6']),
+    ('ASP', 'P2', 0.0, ['SQ5n']),
+    ('ASP', 'Q5', -1.0, []),
+    ('SER', 'P2', 0.0, ['TP1']),
+    ('PHE', 'P2', 0.0, ['SC4', 'TC5']),
+    ('VAL', 'SP2', 0.0, ['SC3']),
+    ('CYS', 'P2', 0.0, ['TC6', 'C1']),
+]
+SC_MASS = {'T': 36.0, 'S': 54.0}
+DIRECTIONS = ([(1, 0, 0), (-1, 0, 0), (0, 1, 0), (0, -1, 0), (0, 0, 1), (0, 0, -1)] * 8
+              + [(a, b, c) for a in range(-2, 3) for b in range(-2, 3) for c in range(-2, 3) if (a, b, c) != (0, 0, 0)])
 MOLTYPES = ['molecule', 'molecule', 'molecule_0', 'my_protein', 'prot-A', 'lysozyme', 'mol_1', 'X', 'Go1']
 CHAINS = ['A', 'B', 'C', 'D', 'X', 'Z', 'a', '1']
 ABSENT_CHAINS = ['Q', 'Y', 'b']
@@ -82,10 +97,42 @@ def preload():
 # ---------------------------------------------------------------------------
 # generator
 
+def _distance(p, q):
+    return math.sqrt(math.fsum((a - b) * (a - b) for a, b in zip(p, q)))
+
+
+def _tie(d, cut):
+    return d == cut or abs(d - cut) <= TIE * max(abs(d), abs(cut))
+
+
+def _residue_distances(n, res_of, edges):
+    """Own residue graph (residues joined when any of their particles are
+    joined by an edge) and breadth-first distances from every residue.
+    Unreachable residues are absent from the inner dict."""
+    adj = [set() for _ in range(n)]
+    for a, b in edges:
+        ra, rb = res_of[a], res_of[b]
+        if ra != rb:
+            adj[ra].add(rb)
+            adj[rb].add(ra)
+    out = []
+    for src in range(n):
+        dist = {src: 0}
+        frontier = [src]
+        while frontier:
+            nxt = []
+            for u in frontier:
+                for v in sorted(adj[u]):
+                    if v not in dist:
+                        dist[v] = dist[u] + 1
+                        nxt.append(v)
+            frontier = nxt
+        out.append(dist)
+    return out
+
+
 def _unit(vec):
     a, b, c = vec
-    if a == 0 and b == 0 and c == 0:
-        a = 1
     norm = math.sqrt(a * a + b * b + c * c)
     return (a / norm, b / norm, c / norm)
 
@@ -103,7 +150,7 @@ def _case(draw, tier, hazard=False):
         left -= size
     sizes.append(left)
     chains = draw(st.lists(st.sampled_from(CHAINS), min_size=nch, max_size=nch, unique=True))
-    short = draw(st.one_of(st.sampled_from([0.3, 0.3, 0.25, 0.4, 0.5, 0.0, 0.1]), st.floats(0.05, 0.6)))
+    short = draw(st.one_of(st.sampled_from([0.3, 0.3, 0.25, 0.4, 0.5, 0.3, 0.35, 0.45, 0.0, 0.1]), st.floats(0.05, 0.6)))
     long_ = draw(st.one_of(st.just(1.1), st.floats(0.2, 1.0).map(lambda x: short + x)))
     if not long_ > short:
         long_ = short + 0.5
@@ -115,43 +162,48 @@ def _case(draw, tier, hazard=False):
         vsname = 'GO'
     moltype = draw(st.sampled_from(MOLTYPES))
 
+    def fixed(strategy, size):
+        return draw(st.lists(strategy, min_size=size, max_size=size))
+
     # residues
     shared_start = draw(st.sampled_from([1, 1, 1, 0, -3, 5, 100]))
     step = st.sampled_from([1] * 9 + [2, 4])
+    resid_steps = fixed(step, nres)
+    old_steps = fixed(step, nres)
+    templates = fixed(st.sampled_from(TEMPLATES), nres)
+    own_start = fixed(st.one_of(st.none(), st.none(), st.none(), st.integers(-5, 30)), nch)
     residues = []
     resid = draw(st.sampled_from([1, 1, 1, 0, 2, 10]))
     for ci, size in enumerate(sizes):
-        if draw(st.sampled_from([True, True, True, False])):
-            old = shared_start
-        else:
-            old = draw(st.integers(-5, 30))
+        old = shared_start if own_start[ci] is None else own_start[ci]
         for _ in range(size):
-            residues.append({'resid': resid, 'old': old, 'chain': chains[ci],
-                             'resname': draw(st.sampled_from(RESNAMES))})
-            resid += draw(step)
-            old += draw(step)
+            ri = len(residues)
+            residues.append({'resid': resid, 'old': old, 'chain': chains[ci], 'resname': templates[ri][0]})
+            resid += resid_steps[ri]
+            old += old_steps[ri]
 
     # atoms
     atoms = []
     bb_key = []
     last_key = []
     key = draw(st.sampled_from([0, 1, 1, 5]))
-    keystep = st.sampled_from([1] * 9 + [2, 3])
+    keysteps = fixed(st.sampled_from([1] * 9 + [2, 3]), nres)
     L = 0.8 * long_
-    coord = st.floats(-L, L, allow_nan=False, allow_infinity=False)
+    free = fixed(st.floats(-L, L, allow_nan=False, allow_infinity=False), 3 * nres)
+    cats = ['short-', 'short+', 'long-', 'long+', 'short=', 'long=', 'mid', 'mid', 'mid', 'mid', 'below', 'below',
+            'below', 'above', 'above']
+    # per residue: (anchored?, to previous?, target, category, fraction, direction)
+    plan = fixed(st.tuples(st.sampled_from([True, True, True, False]), st.sampled_from([True, False, False]),
+                           st.integers(0, 19), st.sampled_from(cats), st.floats(0.05, 0.9),
+                           st.sampled_from(DIRECTIONS)), nres)
     anchored = []
     bbpos = []
     edges = []
-    cats = ['short-', 'short+', 'long-', 'long+', 'short=', 'long=', 'mid', 'mid', 'mid', 'mid', 'below', 'below',
-            'above', 'above']
     for ri in range(nres):
-        if ri > 0 and draw(st.sampled_from([True, True, True, False])):
-            if draw(st.booleans()):
-                rj = ri - 1
-            else:
-                rj = draw(st.integers(0, ri - 1))
-            cat = draw(st.sampled_from(cats))
-            frac = draw(st.floats(0.05, 0.9))
+        is_anchored, to_prev, target, cat, frac, general = plan[ri]
+        _, bbtype, bbcharge, sctypes = templates[ri]
+        if ri > 0 and is_anchored:
+            rj = ri - 1 if to_prev else target % ri
             if cat == 'short-':
                 dist = short * (1 - 1e-7)
             elif cat == 'short+':
@@ -170,48 +222,40 @@ def _case(draw, tier, hazard=False):
                 dist = short * frac
             else:
                 dist = long_ * (1 + frac)
-            if draw(st.booleans()):
-                axis = draw(st.integers(0, 2))
-                sign = draw(st.sampled_from([1.0, -1.0]))
-                direction = [0.0, 0.0, 0.0]
-                direction[axis] = sign
-            else:
-                direction = _unit(draw(st.tuples(st.integers(-3, 3), st.integers(-3, 3), st.integers(-3, 3))))
+            direction = _unit(general)
             pos = [bbpos[rj][k] + dist * direction[k] for k in range(3)]
             anchored.append((rj, ri))
         else:
-            pos = [draw(coord), draw(coord), draw(coord)]
+            pos = free[3 * ri:3 * ri + 3]
         bbpos.append(pos)
-        nside = draw(st.integers(0, 2))
-        atoms.append([key, ri, anchor, draw(st.sampled_from(BB_TYPES)), pos, 72.0,
-                      draw(st.sampled_from([0.0, 0.0, 0.0, 1.0, -1.0]))])
+        atoms.append([key, ri, anchor, bbtype, pos, 72.0, bbcharge])
         bb_key.append(key)
         prev = key
-        for si in range(nside):
-            key += draw(keystep)
-            spos = [pos[0] + 0.1 * (si + 1), pos[1] + draw(st.sampled_from([0.05, -0.2, 0.3])), pos[2]]
-            atoms.append([key, ri, 'SC%d' % (si + 1), draw(st.sampled_from(SC_TYPES)), spos,
-                          draw(st.sampled_from([36.0, 54.0, 72.0])), 0.0])
+        for si, sctype in enumerate(sctypes):
+            key += 1
+            spos = [pos[0] + 0.1 * (si + 1), pos[1] + (0.05, -0.2)[si], pos[2]]
+            atoms.append([key, ri, 'SC%d' % (si + 1), sctype, spos, SC_MASS.get(sctype[0], 72.0), 0.0])
             edges.append([prev, key])
             prev = key
         last_key.append(prev)
-        key += draw(keystep)
+        key += keysteps[ri]
     # backbone edges (rare breaks), within chains only
+    bonded = fixed(st.sampled_from([True] * 15 + [False]), nres)
     for ri in range(1, nres):
-        if residues[ri]['chain'] == residues[ri - 1]['chain']:
-            if draw(st.sampled_from([True] * 15 + [False])):
-                edges.append([bb_key[ri - 1], bb_key[ri]])
+        if residues[ri]['chain'] == residues[ri - 1]['chain'] and bonded[ri]:
+            edges.append([bb_key[ri - 1], bb_key[ri]])
     # cross links
-    for a, b in draw(st.lists(st.tuples(st.integers(0, nres - 1), st.integers(0, nres - 1)), max_size=3)):
+    for a, b, side in draw(st.lists(st.tuples(st.integers(0, nres - 1), st.integers(0, nres - 1), st.booleans()),
+                                    max_size=3)):
         if a != b:
-            pair = [last_key[a], last_key[b]] if draw(st.booleans()) else [bb_key[a], last_key[b]]
+            pair = [last_key[a], last_key[b]] if side else [bb_key[a], last_key[b]]
             if pair not in edges and pair[::-1] not in edges:
                 edges.append(pair)
     # pre-existing interactions
     pre_excl = []
     pre_vs = []
-    for ri in range(nres):
-        if last_key[ri] != bb_key[ri] and draw(st.sampled_from([True, False, False, False])):
+    for ri in draw(st.lists(st.integers(0, nres - 1), max_size=3, unique=True)):
+        if last_key[ri] != bb_key[ri]:
             pre_excl.append([bb_key[ri], last_key[ri]])
     if draw(st.sampled_from([True, False, False])):
         for ri in range(nres):
@@ -219,18 +263,41 @@ def _case(draw, tier, hazard=False):
                 pre_vs.append([last_key[ri], bb_key[ri]])
                 break
 
-    # contacts
+    # contacts: the generator sorts all residue pairs by what should happen to
+    # them and picks from every kind, next to anchored / random / near pairs
     lookup = {(r['chain'], r['old']): i for i, r in enumerate(residues)}
-    pairs = []
-    for pair in anchored:
-        if draw(st.sampled_from([True] * 6 + [False])):
-            pairs.append(pair)
-    for a, b in draw(st.lists(st.tuples(st.integers(0, nres - 1), st.integers(0, nres - 1)), max_size=12)):
+    res_of = {a[0]: a[1] for a in atoms}
+    gdist = _residue_distances(nres, res_of, edges)
+    kinds = {'ok': [], 'graph': [], 'short': [], 'long': []}
+    for a in range(nres):
+        for b in range(a + 1, nres):
+            d = _distance(bbpos[a], bbpos[b])
+            if _tie(d, short) or _tie(d, long_):
+                continue
+            near = gdist[a].get(b) is not None and gdist[a][b] <= res_dist
+            inside = short < d < long_
+            if inside:
+                kinds['graph' if near else 'ok'].append((a, b))
+            elif not near:
+                kinds['short' if d < short else 'long'].append((a, b))
+    pairs = []          # (a, b, forced direction mode or None)
+    picks = fixed(st.tuples(st.integers(0, 400), st.sampled_from([True] * 9 + [False])), 7)
+    for slot, (name, forced) in enumerate([('ok', None), ('ok', None), ('ok', 'one'), ('graph', 'both'),
+                                           ('short', 'both'), ('long', 'both'), ('graph', None)]):
+        index, wanted = picks[slot]
+        if kinds[name] and wanted:
+            a, b = kinds[name][index % len(kinds[name])]
+            pairs.append((a, b, forced))
+    keep = fixed(st.sampled_from([True] * 6 + [False]), len(anchored))
+    for pair, flag in zip(anchored, keep):
+        if flag:
+            pairs.append((pair[0], pair[1], None))
+    for a, b in draw(st.lists(st.tuples(st.integers(0, nres - 1), st.integers(0, nres - 1)), max_size=8)):
         if a != b:
-            pairs.append((min(a, b), max(a, b)))
-    for a, k in draw(st.lists(st.tuples(st.integers(0, nres - 1), st.integers(1, 6)), max_size=6)):
+            pairs.append((min(a, b), max(a, b), None))
+    for a, k in draw(st.lists(st.tuples(st.integers(0, nres - 1), st.integers(1, 6)), max_size=5)):
         if a + k < nres:
-            pairs.append((a, a + k))
+            pairs.append((a, a + k, None))
     seen = set()
     entries = []
 
@@ -243,12 +310,18 @@ def _case(draw, tier, hazard=False):
             seen.add(tuple(entry))
             entries.append(entry)
 
+    modes = fixed(st.sampled_from(['both'] * 7 + ['fwd', 'rev', 'rev']), len(pairs))
+    onedir = draw(st.sampled_from(['fwd', 'rev']))
     done = set()
-    for a, b in pairs:
+    for idx, (a, b, forced) in enumerate(pairs):
         if (a, b) in done:
             continue
         done.add((a, b))
-        mode = draw(st.sampled_from(['both'] * 7 + ['fwd', 'rev', 'rev']))
+        mode = modes[idx]
+        if forced == 'both':
+            mode = 'both'
+        elif forced == 'one':
+            mode = onedir
         if mode in ('both', 'fwd'):
             push(ident(a), ident(b))
         if mode in ('both', 'rev'):
@@ -257,27 +330,37 @@ def _case(draw, tier, hazard=False):
         push(ident(a), ident(a))
     # entries that cannot be resolved
     olds = [r['old'] for r in residues]
-    for kind, a, b in draw(st.lists(st.tuples(st.sampled_from(['resid', 'number', 'chain', 'swap', 'both']),
-                                              st.integers(0, nres - 1), st.integers(0, nres - 1)), max_size=3)):
+    nfake = draw(st.sampled_from([0, 1, 1, 1, 1, 2, 2, 3]))
+    for kind, a, b, number, chain, direction in fixed(st.tuples(
+            st.sampled_from(['resid', 'number', 'chain', 'swap', 'both']), st.integers(0, nres - 1),
+            st.integers(0, nres - 1), st.sampled_from([max(olds) + 1, min(olds) - 1, max(olds) + 7]),
+            st.sampled_from(ABSENT_CHAINS), st.sampled_from(['both', 'both', 'fwd', 'rev'])), nfake):
         if kind == 'resid':
             fake = (residues[a]['resid'], residues[a]['chain'])
         elif kind == 'number':
-            fake = (draw(st.sampled_from([max(olds) + 1, min(olds) - 1, max(olds) + 7])), residues[a]['chain'])
+            fake = (number, residues[a]['chain'])
         elif kind == 'chain':
-            fake = (residues[a]['old'], draw(st.sampled_from(ABSENT_CHAINS)))
+            fake = (residues[a]['old'], chain)
         elif kind == 'swap':
             fake = (residues[a]['old'], residues[b]['chain'])
         else:
-            fake = (max(olds) + 3, draw(st.sampled_from(ABSENT_CHAINS)))
+            fake = (max(olds) + 3, chain)
         if (fake[1], fake[0]) in lookup:
-            continue
+            fake = (number, residues[a]['chain'])
         other = fake if kind == 'both' else ident(b)
-        direction = draw(st.sampled_from(['both', 'both', 'fwd', 'rev']))
         if direction in ('both', 'fwd'):
             push(fake, other)
         if direction in ('both', 'rev'):
             push(other, fake)
-    entries = list(draw(st.permutations(entries)))
+    order = draw(st.sampled_from(['permuted', 'permuted', 'as-built', 'reversed', 'split']))
+    if order == 'permuted':
+        entries = list(draw(st.permutations(entries)))
+    elif order == 'reversed':
+        entries = entries[::-1]
+    elif order == 'split':
+        # first every pair one way round, then the remaining directions
+        first = [e for e in entries if (e[0], e[1]) <= (e[2], e[3])]
+        entries = first + [e for e in entries if (e[0], e[1]) > (e[2], e[3])]
     via_file = bool(entries) and draw(st.booleans())
     decoys = []
     if via_file:
@@ -366,39 +449,13 @@ def _build(case):
 # ---------------------------------------------------------------------------
 # oracle
 
-def _distance(p, q):
-    return math.sqrt(math.fsum((a - b) * (a - b) for a, b in zip(p, q)))
-
-
-def _tie(d, cut):
-    return d == cut or abs(d - cut) <= TIE * max(abs(d), abs(cut))
-
-
 def _reference(case):
     """Expected contacts from the statement.  Returns (verdict per unordered
     residue pair, counts of rejection reasons)."""
     residues = case['residues']
     n = len(residues)
     res_of = {a[0]: a[1] for a in case['atoms']}
-    adj = [set() for _ in range(n)]
-    for a, b in case['edges']:
-        ra, rb = res_of[a], res_of[b]
-        if ra != rb:
-            adj[ra].add(rb)
-            adj[rb].add(ra)
-
-    def bfs(src):
-        dist = {src: 0}
-        frontier = [src]
-        while frontier:
-            nxt = []
-            for u in frontier:
-                for v in sorted(adj[u]):
-                    if v not in dist:
-                        dist[v] = dist[u] + 1
-                        nxt.append(v)
-            frontier = nxt
-        return dist
+    gdist = _residue_distances(n, res_of, case['edges'])
 
     lookup = {}
     for i, r in enumerate(residues):
@@ -429,14 +486,11 @@ def _reference(case):
         listed.add((a, b))
     short, long_, res_dist = case['short'], case['long'], case['res_dist']
     verdict = {}
-    dcache = {}
     for a, b in sorted(listed):
         pair = (min(a, b), max(a, b))
         if pair in verdict:
             continue
-        if pair[0] not in dcache:
-            dcache[pair[0]] = bfs(pair[0])
-        graph = dcache[pair[0]].get(pair[1])
+        graph = gdist[pair[0]].get(pair[1])
         d = _distance(bbpos[pair[0]], bbpos[pair[1]])
         fails = []
         tie = False
